@@ -71,9 +71,10 @@ class HeapObj:
     symbolic: bool = False
     name: str = ""
     fresh: bool = True
+    absent: Tuple[str, ...] = ()   # attribute names the model knows to be unset on this instance
 
     def copy(self) -> "HeapObj":
-        return HeapObj(self.kind, self.cls, dict(self.fields), list(self.items), self.symbolic, self.name, self.fresh)
+        return HeapObj(self.kind, self.cls, dict(self.fields), list(self.items), self.symbolic, self.name, self.fresh, self.absent)
 
 
 @dataclass
@@ -959,7 +960,20 @@ class Interp:
         kwargs: Dict[str, Term] = {}
         for kw in call.keywords:
             if kw.arg is None:
-                raise AnalysisError(f"**kwargs at {ctx.loc(call)}")
+                dv = self.eval(kw.value, st, ctx)
+                pairs2 = None
+                if dv[0] == "cdict":
+                    pairs2 = list(dv[1])
+                elif dv[0] == "obj" and st.heap[dv[1]].kind == "dict" and not st.heap[dv[1]].symbolic:
+                    pairs2 = list(st.heap[dv[1]].items)
+                if pairs2 is None:
+                    raise AnalysisError(f"**kwargs of an unknown mapping at {ctx.loc(call)}")
+                for k2, v2 in pairs2:
+                    ks = T.to_seq(k2) if (is_c(k2) or T.is_seq(k2)) else None
+                    if ks is None or not all(a[0] == "L" for a in ks[2]):
+                        raise AnalysisError(f"**kwargs with a non-constant key at {ctx.loc(call)}")
+                    kwargs["".join(a[1] for a in ks[2])] = v2
+                continue
             kwargs[kw.arg] = self.eval(kw.value, st, ctx)
         return args, kwargs
 
@@ -1341,6 +1355,10 @@ class Interp:
                     return v
                 if ho.cls is not None and ho.cls.ext_bases and not ho.symbolic and not ho.name:
                     return ("extmeth", base, attr)
+                if attr in getattr(ho, "absent", ()):
+                    # the model of this instance says the attribute has not been set yet (e.g. never connected)
+                    st.may_raise("AttributeError", c(True), ctx.loc(node))
+                    return top(f"attribute {attr} is not set on this instance")
                 if ho.name:
                     # attribute that no modelled constructor sets: state lingering from elsewhere
                     st.events.append(Event("readattr", f"{ho.name}.{attr}", (), (), ctx.loc(node), ctx.fi.key if ctx.fi else "", pc_len=len(st.pc)))
@@ -1672,6 +1690,21 @@ class Interp:
         g = node.generators[0]
         itv = self.eval(g.iter, st, ctx)
         items = self.iter_items(itv, st, ctx, node)
+        if g.ifs and items is not None:
+            # concrete items: keep those whose filter is decided true; a filter that stays symbolic gives a
+            # conditional list (only `next(...)` knows how to consume it)
+            saved = dict(st.env)
+            pairs: List[Tuple[Term, Term]] = []
+            for it in items:
+                self.assign(g.target, it, st, ctx)
+                cnd = conj([self.truth(self.eval(t_, st, ctx), st) for t_ in g.ifs])
+                if is_c(cnd) and not cnd[1]:
+                    continue
+                pairs.append((cnd, self.eval(node.elt, st, ctx)))
+            st.env = saved
+            if all(is_c(cn) for cn, _ in pairs):
+                return st.alloc(HeapObj("list", None, {}, [v for _, v in pairs]))
+            return ("condlist", tuple(pairs))
         if g.ifs:
             if items is not None:
                 raise AnalysisError(f"unsupported comprehension (filter over a concrete collection inside an expression) at {ctx.loc(node)}")
@@ -1933,6 +1966,10 @@ def decided_by(pc: List[Term], cond: Term) -> Optional[bool]:
         for a in _atoms(g):
             have.add(a)
     parts = _atoms(cond)
+    # a value known to be truthy is not None (literal-level implication)
+    if len(parts) == 1 and isinstance(parts[0], tuple) and parts[0][:1] == ("cmp",) and parts[0][1] in ("is", "is not", "==", "!=") and is_c(parts[0][3]) and parts[0][3][1] is None:
+        if ("truthy", parts[0][2]) in have:
+            return parts[0][1] in ("is not", "!=")
     if all(p in have for p in parts):
         return True
     for p in parts:
